@@ -197,9 +197,25 @@ def discharge(path, claim, timeout_ms=20000, portfolio=False, range_assumptions=
     if z3.simplify(a - b).eq(z3.RealVal(0)) or z3.simplify(a).eq(z3.simplify(b)):
         return done('unsat', 'syntactic')
     queries += 1
-    r, m, _, _ = _check(base, a != b, timeout_ms)
+    r, m, _, _ = _check(base, a != b, min(timeout_ms, 4000))
     if r == 'unsat':
         return done('unsat', 'direct')
+    if r == 'unknown':
+        # cheap second stage before spending the full budget: division-free polynomial identity
+        try:
+            ff0 = cross_multiplied(a, b, None)
+            if z3.is_true(z3.simplify(ff0)):
+                return done('unsat', 'fraction-free (normal form identical)')
+            queries += 1
+            r0, m0, _, _ = _check(base, z3.Not(ff0), min(timeout_ms, 8000))
+            if r0 == 'unsat':
+                return done('unsat', 'fraction-free')
+        except Unsupported:
+            pass
+        queries += 1
+        r, m, _, _ = _check(base, a != b, timeout_ms)
+        if r == 'unsat':
+            return done('unsat', 'direct')
     kappa = None
     first_model = m
     if r == 'sat':
